@@ -187,6 +187,11 @@ pub struct Profile {
     pub interleave: bool,
     /// systematic enumeration of some knobs by case number (instead of sampling them)
     pub grid: Option<Grid>,
+    /// single-op probes: probability (in %) of a probe block on an index that is built and
+    /// clean, right after a round's commit (see `probe_block`)
+    pub probes: u32,
+    /// all the probe ops in every block (thorough) instead of a random 6-8 of them
+    pub probes_all: bool,
     /// the first MDB_MAP_FULL ends the case (after `abort`, `dump`)
     pub end_on_mapfull: bool,
     /// `crash` scenario: `note final-txn` opens the last round, which always ends with
@@ -1211,6 +1216,167 @@ impl<'p> Gen<'p> {
         true
     }
 
+    // ---------------------------------------------------------------- probes
+
+    /// The probe ops for index `i` (built, no pending change), each with the id it touches.
+    fn probe_ops(&mut self, i: usize) -> Vec<(Op, Option<u32>)> {
+        let w = self.idx[i].w();
+        let dims = self.idx[i].dims;
+        let smallest = self.idx[i].items.keys().next().copied();
+        let largest = self.idx[i].items.keys().next_back().copied();
+        let special = [0u32, 1, u32::MAX, u32::MAX - 1];
+        // stored candidates: u32::MAX counts three times when it is stored
+        let mut stored: Vec<u32> = Vec::new();
+        stored.extend(smallest);
+        stored.extend(largest);
+        stored.extend(self.present_id(i));
+        for id in special {
+            if self.idx[i].items.contains_key(&id) {
+                stored.push(id);
+                if id == u32::MAX {
+                    stored.push(id);
+                    stored.push(id);
+                }
+            }
+        }
+        let mut absent: Vec<u32> = special
+            .iter()
+            .copied()
+            .filter(|id| !self.idx[i].items.contains_key(id))
+            .collect();
+        absent.push(self.absent_id(i));
+        absent.push(self.absent_id(i));
+        let mut ops: Vec<(Op, Option<u32>)> = Vec::new();
+        // add of an absent id
+        let id = *self.r.pick(&absent);
+        ops.push((Op::Add(w, id, self.gen_vec(i)), Some(id)));
+        if !stored.is_empty() {
+            // overwrite with the same vector, with another vector
+            let id = *self.r.pick(&stored);
+            let same = fit(self.idx[i].items[&id].clone(), dims);
+            ops.push((Op::Add(w, id, same), Some(id)));
+            let id = *self.r.pick(&stored);
+            ops.push((Op::Add(w, id, self.gen_vec(i)), Some(id)));
+            // delete of a stored id
+            let id = *self.r.pick(&stored);
+            ops.push((Op::Del(w, id), Some(id)));
+        }
+        // delete of an absent id
+        let id = *self.r.pick(&absent);
+        ops.push((Op::Del(w, id), Some(id)));
+        // appends
+        let higher_index_has_keys = self
+            .idx
+            .iter()
+            .any(|st| st.index > self.idx[i].index && st.has_keys);
+        let mut rejected: Vec<u32> = Vec::new();
+        if let Some(max) = largest {
+            rejected.push(max);
+            rejected.push(self.r.range(0, max as u64) as u32);
+            if max == u32::MAX {
+                rejected.push(u32::MAX);
+                rejected.push(u32::MAX);
+            }
+            rejected.extend(smallest);
+        }
+        if higher_index_has_keys {
+            rejected.push(*self.r.pick(&absent));
+            rejected.push(u32::MAX);
+        }
+        if !rejected.is_empty() {
+            let id = *self.r.pick(&rejected);
+            ops.push((Op::Append(w, id, self.gen_vec(i)), Some(id)));
+        }
+        if !higher_index_has_keys {
+            let id = match largest {
+                None => Some(*self.r.pick(&absent)),
+                Some(u32::MAX) => None,
+                Some(max) => Some(match self.r.below(3) {
+                    0 => max + 1,
+                    1 => u32::MAX,
+                    _ => self.r.range(max as u64 + 1, u32::MAX as u64) as u32,
+                }),
+            };
+            if let Some(id) = id {
+                ops.push((Op::Append(w, id, self.gen_vec(i)), Some(id)));
+            }
+        }
+        // wrong dimensions
+        let fam = self.idx[i].family;
+        let id = if self.r.chance(0.5) && !stored.is_empty() { *self.r.pick(&stored) } else { *self.r.pick(&absent) };
+        ops.push((Op::Add(w, id, Vec::new()), Some(id)));
+        let id = if self.r.chance(0.5) && !stored.is_empty() { *self.r.pick(&stored) } else { *self.r.pick(&absent) };
+        ops.push((Op::Add(w, id, self.gen_vec_family(i, fam, dims + 1)), Some(id)));
+        ops.push((Op::Clear(w), None));
+        ops
+    }
+
+    /// Single-op probes on index `i`, which is built and has no pending change; no write
+    /// transaction is open. Each probe is `begin, <op>, needbuild, open, contains/get of the
+    /// touched id, dump, abort, dump` -- the abort makes the index built-and-clean again -- and
+    /// one probe in four commits instead (`commit, dump, needbuild, open` from a fresh read
+    /// transaction), then restores the clean state with `begin, build, commit, dump`.
+    fn probe_block(&mut self, ex: &mut Executor, i: usize) -> bool {
+        bail_if_dead!(ex.exec(&Op::Note(format!("probes index {}", self.idx[i].index))));
+        let mut ops = self.probe_ops(i);
+        if !self.p.probes_all {
+            self.r.shuffle(&mut ops);
+            let keep = self.r.urange(6, 8);
+            ops.truncate(keep);
+        }
+        for (op, touched) in ops {
+            if self.idx[i].dirty || !self.idx[i].built_once {
+                // a previous committed probe could not be rebuilt: stop probing
+                break;
+            }
+            let w = self.idx[i].w();
+            let committed = self.r.below(4) == 0;
+            bail_if_dead!(ex.exec(&Op::Begin));
+            bail_if_dead!(self.step(ex, op));
+            if self.txn_broken {
+                return self.recover_outside(ex);
+            }
+            bail_if_dead!(ex.exec(&Op::NeedBuild(w)));
+            bail_if_dead!(ex.exec(&Op::Open(w)));
+            if let Some(id) = touched {
+                bail_if_dead!(ex.exec(&Op::Contains(w, id)));
+                bail_if_dead!(ex.exec(&Op::Get(w, id)));
+            }
+            bail_if_dead!(ex.exec(&Op::Dump));
+            if !committed {
+                bail_if_dead!(self.abort(ex));
+                bail_if_dead!(ex.exec(&Op::Dump));
+                continue;
+            }
+            bail_if_dead!(self.commit(ex));
+            bail_if_dead!(ex.exec(&Op::Dump));
+            bail_if_dead!(ex.exec(&Op::NeedBuild(w)));
+            bail_if_dead!(ex.exec(&Op::Open(w)));
+            if let Some(id) = touched {
+                bail_if_dead!(ex.exec(&Op::RContains(w, id)));
+            }
+            // back to a built, clean index
+            bail_if_dead!(ex.exec(&Op::Begin));
+            if !self.build(ex, i) {
+                return false;
+            }
+            if self.txn_broken {
+                return self.recover_outside(ex);
+            }
+            bail_if_dead!(self.commit(ex));
+            bail_if_dead!(ex.exec(&Op::Dump));
+        }
+        true
+    }
+
+    /// Like `recover`, but leaves no transaction open.
+    fn recover_outside(&mut self, ex: &mut Executor) -> bool {
+        self.broken_count += 1;
+        bail_if_dead!(self.abort(ex));
+        bail_if_dead!(ex.exec(&Op::Dump));
+        !self.p.end_on_mapfull
+    }
+
     // ---------------------------------------------------------------- the case
 
     fn run(&mut self, ex: &mut Executor) -> bool {
@@ -1292,6 +1458,23 @@ impl<'p> Gen<'p> {
             if !self.recover(ex) {
                 return false;
             }
+            if first && p.probes > 0 {
+                // histories where u32::MAX (and 0) are stored items, whatever the id style
+                for i in 0..self.idx.len() {
+                    if self.r.chance(0.4) {
+                        let w = self.idx[i].w();
+                        let v = self.gen_vec(i);
+                        bail_if_dead!(self.step(ex, Op::Add(w, u32::MAX, v)));
+                        if self.r.chance(0.5) {
+                            let v = self.gen_vec(i);
+                            bail_if_dead!(self.step(ex, Op::Add(w, 0, v)));
+                        }
+                    }
+                }
+                if !self.recover(ex) {
+                    return false;
+                }
+            }
             if p.interleave {
                 self.r.shuffle(&mut plan);
             }
@@ -1338,6 +1521,14 @@ impl<'p> Gen<'p> {
                     bail_if_dead!(ex.exec(&Op::Dump));
                     if !self.outside_checks(ex) {
                         return false;
+                    }
+                    if p.probes > 0 {
+                        for i in 0..self.idx.len() {
+                            let clean = !self.idx[i].dirty && self.idx[i].built_once;
+                            if clean && self.r.chance(p.probes as f64 / 100.0) && !self.probe_block(ex, i) {
+                                return false;
+                            }
+                        }
                     }
                     bail_if_dead!(ex.exec(&Op::Begin));
                     // the same observations again, now inside the next transaction
